@@ -91,7 +91,7 @@ class C19(Prop):
     trusted_base = ['numpy.add.at weighted counting and numpy loss recomputation', 'numpy.linalg.pinv (independent estimate of the total)',
                     'pandas DataFrame construction / equality (DataFrame.equals) and mbi.Domain / mbi.Dataset constructors to build the public dataset']
     assumptions = ['bounded: <= 4 attributes of size <= 4, <= 80 public records, <= 3 measurements',
-                   'metric L2 only; Q given explicitly; cliques are tuples in domain order',
+                   'metric L2 only; Q given explicitly; cliques are tuples in domain order in two thirds of the cases and in a seeded permuted order in the others',
                    'the default 250 mirror-descent iterations of entropic_mirror_descent (not a parameter of estimate)',
                    '"never worse than uniform" is an observation of the line search on these inputs; its acceptance test compares against the initial point, '
                    'so no descent lemma backs it (see DESIGN C19)']
@@ -108,6 +108,9 @@ class C19(Prop):
             shape = [int(rng.randint(2, 5)) for _ in range(d)]
             k = int(rng.randint(1, 4))
             cl = ac.random_cliques(rng, d, k)
+            if i % 3 == 1:
+                # a measurement may name its attributes in any order (Q and y then follow that order, not the domain's)
+                cl = [tuple(c[j] for j in rng.permutation(len(c))) for c in cl]
             N = int(rng.choice([1, 30, 1000]))
             n_pub = int(rng.choice([1, 2, 5, 20, 80]))
             tk = str(rng.choice(['N', 'n_public', 'other', 'estimated', 'estimated']))
